@@ -154,6 +154,7 @@ struct Verdict
   uint64_t distinct = 0;    // 64-bit identity of the case for distinct counting (0 = use text hash)
   std::vector<std::string> classes; // labels for the class histogram
   bool infra = false;       // infrastructure problem (not a verdict)
+  bool slow = false;        // the failure costs minutes to re-evaluate (a hang judged by a watchdog): do not shrink it
   uint64_t weight = 1;      // evaluations this case stands for (batched cases)
   std::vector<uint64_t> more_distinct; // identities of the members of a batch (all non-trivial)
   std::string replay_text;  // non-empty: a smaller case reproducing the failure (written as the replay file)
